@@ -627,9 +627,9 @@ func init() {
 						return x
 					}(),
 					j("os sessions depth 4, 2 handles, byte cuts", "instr-w2", "os", 4, 2, true, true, false, 900),
-					hj("rs hang-up with requests in flight W=2 db3", "instr-w2", "rs", 3, 600),
-					hj("rs hang-up with requests in flight W=8 db2", "instr", "rs", 2, 600),
-					{Part: "C11/midclose", Build: "instr", Args: map[string]string{"bound": "3"}, Shards: 16, BudgetS: 600, Label: "rs: request sent while the handler's Close is running, W=8 db3"},
+					hj("rs hang-up with requests in flight W=2 db4", "instr-w2", "rs", 4, 600),
+					hj("rs hang-up with requests in flight W=8 db3", "instr", "rs", 3, 600),
+					{Part: "C11/midclose", Build: "instr", Args: map[string]string{"bound": "4"}, Shards: 16, BudgetS: 600, Label: "rs: request sent while the handler's Close is running, W=8 db4"},
 					hj("os hang-up with requests in flight W=2 db3", "instr-w2", "os", 3, 600),
 				}, rsOnly)
 			}
@@ -642,8 +642,8 @@ func init() {
 					return x
 				}(),
 				j("os sessions depth 3, 2 handles, byte cuts", "instr-w2", "os", 3, 2, false, true, false, 100),
-				hj("rs hang-up with requests in flight W=2 db2", "instr-w2", "rs", 2, 100),
-				{Part: "C11/midclose", Build: "instr-w2", Args: map[string]string{"bound": "3"}, Shards: 16, BudgetS: 100, Label: "rs: request sent while the handler's Close is running, db3"},
+				hj("rs hang-up with requests in flight W=2 db3", "instr-w2", "rs", 3, 100),
+				{Part: "C11/midclose", Build: "instr-w2", Args: map[string]string{"bound": "4"}, Shards: 16, BudgetS: 100, Label: "rs: request sent while the handler's Close is running, db4"},
 				hj("os hang-up with requests in flight W=2 db2", "instr-w2", "os", 2, 100),
 			}, rsOnly)
 		},
